@@ -2,7 +2,7 @@
 From Coq Require Import List ZArith Bool.
 From LJT Require Import model.Huff gen.GenParams model.CParams proofs.CParamsHoare proofs.CParamsTj
   proofs.CParamsScript proofs.CParamsChain proofs.CParamsSetup proofs.CParamsBlock proofs.CParamsMaster
-  proofs.CParamsPasses proofs.CParamsSimd proofs.CParamsExamples lib.Sweep model.CProgScript proofs.CProgScriptProofs model.CRestart proofs.CRestartProofs model.CMarker proofs.CMarkerProofs.
+  proofs.CParamsPasses proofs.CParamsSimd proofs.CParamsExamples lib.Sweep model.CProgScript proofs.CProgScriptProofs model.CRestart proofs.CRestartProofs model.CMarker proofs.CMarkerProofs model.CParamApi proofs.CParamApiProofs.
 Import ListNotations.
 Local Open Scope Z_scope.
 
@@ -258,6 +258,72 @@ Theorem C17_app_markers : forall img scans data regen apps n optimize dcr st d, 
          fold_left dview_step tr d = fold_left dview_step tr0 d).
 Proof. exact app_markers_lemma. Qed.
 Print Assumptions C17_app_markers.
+
+(* ---- the parameter-setting API (jcparam.c), module selection (jcinit.c), TurboJPEG entry points ---- *)
+Theorem C17_quality_scaling_range : forall q, 0 <= quality_scaling q <= 5000.
+Proof. exact quality_scaling_range_lemma. Qed.
+Print Assumptions C17_quality_scaling_range.
+(* every table jpeg_set_linear_quality installs for EVERY scale factor -- hence jpeg_set_quality / jpeg_set_defaults for
+   EVERY quality -- has 64 entries in 1..255 (32767), none zero (F13), with a valid 8-bit divisor (F3) *)
+Theorem C17_linear_quality_tables_ok : forall scale force,
+  let '(t0, t1) := linear_quality_tables scale force in
+  Forall (fun v => 1 <= v <= (if force then 255 else 32767) /\ entry_passes_fdct v = true) (t0 ++ t1) /\
+  length t0 = 64%nat /\ length t1 = 64%nat.
+Proof. exact linear_quality_tables_ok_lemma. Qed.
+Print Assumptions C17_linear_quality_tables_ok.
+Theorem C17_set_quality_tables_ok : forall quality force,
+  let '(t0, t1) := set_quality_tables quality force in
+  Forall (fun v => 1 <= v <= (if force then 255 else 32767) /\ entry_passes_fdct v = true) (t0 ++ t1) /\
+  length t0 = 64%nat /\ length t1 = 64%nat.
+Proof. exact set_quality_tables_ok_lemma. Qed.
+Print Assumptions C17_set_quality_tables_ok.
+(* jpeg_set_colorspace / jpeg_default_colorspace (tables generated from the two switches), EVERY colour space value and
+   input_components: error, or 1..10 components with sampling factors 1..2 and table numbers 0..1 *)
+Theorem C17_set_colorspace_ok : forall cs n i, set_colorspace cs n = inr i -> csinfo_okb i = true.
+Proof. exact set_colorspace_ok_lemma. Qed.
+Print Assumptions C17_set_colorspace_ok.
+Theorem C17_default_colorspace_ok : forall in_cs n lossless cs i,
+  default_colorspace in_cs n lossless = inr (cs, i) -> csinfo_okb i = true.
+Proof. exact default_colorspace_ok_lemma. Qed.
+Print Assumptions C17_default_colorspace_ok.
+(* jpeg_simple_progression (T1-finite, 1..MAX_COMPONENTS components, YCbCr and all-purpose script): every coefficient of
+   every component ends at bit 0 along a successive-approximation chain: all bits sent, each exactly once *)
+Theorem C17_simple_progression_complete : forall n ycc c k,
+  1 <= n <= g_MAX_COMPONENTS -> 0 <= c < n -> 0 <= k < 64 ->
+  final_al (-1) (hist (simple_progression n ycc) c k) = 0 /\
+  sa_chain (-1) (hist (simple_progression n ycc) c k).
+Proof. exact simple_progression_complete_lemma. Qed.
+Print Assumptions C17_simple_progression_complete.
+(* jinit_compress_master: every parameter class is rejected (lossless + arithmetic; lossy precision not 8 / 12) or selects
+   exactly one of DCT / lossless path and exactly one entropy encoder; the SOF marker written identifies it *)
+Theorem C17_select_modules_ok : forall raw lossless arith progressive prec num_scans optimize,
+  match select_modules raw lossless arith progressive prec num_scans optimize with
+  | inl e => (e = ArithNotImpl /\ lossless = true /\ arith = true) \/ (e = BadPrecision /\ lossless = false /\ prec <> 8 /\ prec <> 12)
+  | inr m => md_fdct m = negb (md_lossless m) /\ md_lossless m = lossless /\ md_preprocess m = negb raw /\
+             md_entropy m = (if lossless then EncLhuff else if arith then EncArith else if progressive then EncPhuff else EncHuff) /\
+             md_full_buffer m = ((num_scans >? 1) || optimize)
+  end.
+Proof. exact select_modules_ok_lemma. Qed.
+Print Assumptions C17_select_modules_ok.
+Theorem C17_sof_identifies_encoder : forall img prec16 raw num_scans optimize m,
+  select_modules raw (im_lossless img) (im_arith img) (im_progressive img) (im_prec img) num_scans optimize = inr m ->
+  (im_lossless img = true -> im_progressive img = false) ->
+  exists baseline, sof_code img prec16 = sof_of_encoder (md_entropy m) (im_progressive img) baseline.
+Proof. exact sof_identifies_encoder_lemma. Qed.
+Print Assumptions C17_sof_identifies_encoder.
+(* tj3Compress8/12/16 + setCompDefaults: every stored parameter set and every argument is rejected or reaches
+   jpeg_start_compress with dimensions >= 1, 1..4 components, sampling factors 1..4, table numbers 0..1 and a
+   precision the mode allows -- i.e. inside what C17_initial_setup_bounds / C17_master_start_safe accept or reject cleanly *)
+Theorem C17_tj_compress_setup_ok : forall bits p w h pf s,
+  (bits = 8 \/ bits = 12 \/ bits = 16) -> -1 <= tp_subsamp p < g_TJ_NUMSAMP ->
+  tj_compress_setup bits p w h pf = inr s ->
+  1 <= ts_width s /\ 1 <= ts_height s /\
+  (1 <= length (ts_comps s) <= 4)%nat /\ forallb tj_comp_okb (ts_comps s) = true /\
+  1 <= ts_in_components s <= 4 /\
+  (if ts_lossless s then 2 <= ts_prec s <= 16 /\ 0 <= tp_pt p < ts_prec s /\ g_PSV_MIN <= tp_psv p <= g_PSV_MAX
+   else ts_prec s = bits).
+Proof. exact tj_compress_setup_ok_lemma. Qed.
+Print Assumptions C17_tj_compress_setup_ok.
 
 (* the facts generated from the current source that the models consume (fix presence, marker codes, sizes) *)
 Theorem C17_source_facts :
